@@ -156,7 +156,7 @@ def choices_of(shim, D):
     return dr.tolist(), sd.tolist(), list(shim.perm)
 
 
-def run_real(D, ps, sm, m, shim, ps_2d=False):
+def run_real(D, ps, sm, m, shim, ps_2d=False, lenient=False):
     """Call the real generator under `shim`.  Returns dict(B | exc, contract, draws, sdraws, perm)."""
     mod = _mod()
     saved = mod.rnd
@@ -165,15 +165,22 @@ def run_real(D, ps, sm, m, shim, ps_2d=False):
     try:
         B = mod.poll_mads_2n(D, psa, sm, m)
         out = dict(B=np.asarray(B, dtype=float).tolist())
-    except ShimError:
-        raise
+    except ShimError as ex:
+        if not lenient:
+            raise
+        out = dict(exc="ShimError: " + str(ex)[:80], protocol=str(ex))
     except Exception as ex:
         out = dict(exc=type(ex).__name__ + ": " + str(ex)[:80])
     finally:
         mod.rnd = saved
     if "exc" not in out:
-        dr, sd, pm = choices_of(shim, D)
-        out.update(draws=dr, sdraws=sd, perm=pm)
+        try:
+            dr, sd, pm = choices_of(shim, D)
+            out.update(draws=dr, sdraws=sd, perm=pm)
+        except ShimError as ex:
+            if not lenient:
+                raise
+            out["protocol"] = str(ex)       # the call returned an array although it did not draw (entries, signs, permutation): still judged
     out["contract"] = shim.contract()
     return out
 
@@ -409,6 +416,7 @@ def run_bads(prob, seed):
             rec["attr_mesh"] = float(bads.mesh_size)       # the optimiser's CURRENT mesh size (what the history and the result report)
             rec["state_mesh"] = float(bads.optim_state["mesh_size"])
             rec["state_search_mesh"] = float(bads.optim_state["search_mesh_size"])
+            rec["attr_search_mesh"] = float(getattr(bads, "search_mesh_size", bads.optim_state["search_mesh_size"]))
             rec["iter"] = int(bads.optim_state["iter"])
         if st["cur"] is not None and st["inpoll"]:
             st["cur"]["n_generated"] += 1           # a second direction set in one poll step
@@ -503,7 +511,9 @@ def monitor_poll_step(p):
     pre, cands, ev, u, mesh = p["pre"], p["cands"], p["evald"], p["u"], p["m"]
     if len(pre) != 2 * D:
         return "pre-shape", f"{len(pre)} candidate rows built from {2 * D} directions"
-    for k, (row, d) in enumerate(zip(pre, dirs)):
+    # SET-based (the property does not order the candidates): every candidate is incumbent + mesh * (a direction not used by another candidate).
+    # That candidate k belongs to direction k is the MODEL's reading (correspondence:poll_step), not the property's.
+    def off(row, d):
         for j in range(D):
             step = Fraction(mesh) * d[j]
             want = Fraction(u[j]) + step
@@ -511,8 +521,17 @@ def monitor_poll_step(p):
             if p.get("forced"):     # force_poll_mesh=True: the poll set is snapped to the search grid (half a search-mesh step at most)
                 tol += Fraction(p["sm"]) / 2
             if abs(Fraction(row[j]) - want) > tol:
-                return "off-mesh", (f"candidate {k} coordinate {j} = {row[j]!r} but incumbent + mesh*direction = "
-                                    f"{u[j]!r} + {mesh!r}*{d[j]} = {float(want)!r}")
+                return j, want
+        return None
+    unused = list(range(len(dirs)))
+    for k, row in enumerate(pre):
+        first = off(row, dirs[k])
+        hit = k if (first is None and k in unused) else next((i for i in unused if off(row, dirs[i]) is None), None)
+        if hit is None:
+            j, want = first if first is not None else (0, Fraction(u[0]))
+            return "off-mesh", (f"candidate {k} = {row!r} is not incumbent + mesh*direction for any direction not already used by another candidate "
+                                f"(e.g. coordinate {j} = {row[j]!r}, direction {k} gives {u[j]!r} + {mesh!r}*{dirs[k][j]} = {float(want)!r})")
+        unused.remove(hit)
     pre_t = [tuple(r) for r in pre]
     for c in cands:
         if tuple(c) not in pre_t:
@@ -571,3 +590,49 @@ def coq_run_case(p):
             f"{clist([cz(x) for x in p['sdraws']])}, {cnats(p['perm'])}), "
             f"({cbool(exact)}, {cqmat(p['B'])}, {cqlist(p['u'])}, {cqmat(p['pre'])}, {cqmat(p['cands'])}, "
             f"{cnats(ch)}, {cqmat(p['evald'])}))")
+
+
+# ----------------------------------------------------------------------------- the GENERATED programs (translate/poll.py -> gen/Src_poll.v)
+# Translator validation: the same case literals as the hand-written model, evaluated through Model/PollSrc.v's interpreter on
+# src_gen / src_cand.  The run-level literal additionally carries the four mesh places of the state at the moment the generator was
+# called (the generated block decides which of them it reads) .
+
+REQUIRES_SRC = ["PV.Model.Val", "PV.Model.PollDirs", "PV.Model.PollSrc", "PV.gen.Src_poll"]
+OK_FUN_SRC = ("fun c => let '(D, ps, sm, m, dr, sd, pm) := fst c in let '(ex, ct, B) := snd c in "
+              "src_case_ok src_gen D ps sm m dr sd pm ex ct B")
+RUN_CASE_TY_SRC = "(" + RUN_CASE_TY + ") * (Q * Q * Q * Q)"
+RUN_OK_FUN_SRC = ("fun cc => let c := fst cc in let '(ms, ma, ss, sa) := snd cc in "
+                  "let '(D, ps, sm, m, dr, sd, pm) := fst c in "
+                  "let '(ex, B, u, pre, cands, ch, ev) := snd c in "
+                  "src_step_ok src_gen src_cand D "
+                  "{| s_u := u; s_ps := ps; s_mesh_state := ms; s_mesh_attr := ma; s_smesh_state := ss; s_smesh_attr := sa; s_force := false |} "
+                  "dr sd pm ex B pre cands ch ev")
+
+
+def coq_run_case_src(p):
+    base = coq_run_case(p)
+    if base is None or "state_mesh" not in p:
+        return None
+    return (f"({base}, ({cq(p['state_mesh'])}, {cq(p['attr_mesh'])}, {cq(p['state_search_mesh'])}, "
+            f"{cq(p.get('attr_search_mesh', p['state_search_mesh']))}))")
+
+
+AIMED_RATIOS = [  # (search_mesh, mesh): round-half-even ties, ratios below 1/2 (n would be 0 without the floor at 1), large n
+    (0.5, 1.0), (1.5, 1.0), (2.5, 1.0), (3.5, 1.0), (4.5, 1.0), (6.5, 1.0), (0.49, 1.0), (0.51, 1.0), (2.0 ** -30, 1.0), (1.0, 1.0),
+    (2.0, 1.0), (3.0, 1.0), (7.0, 2.0), (32.0, 1.0), (1.0, 2.0 ** -6), (1024.0, 1.0), (5.0, 2.0), (1.25, 0.5), (2.0 ** -8, 2.0 ** -10),
+]
+
+
+def aimed_case(rng, idx):
+    """component cases placed where an edit of poll_mads_2n shows: D >= 2 with n > 1 (non-zero strictly-lower entries: tril / transpose /
+    permutation / draw range), ratio ties and ratios < 1/2 (round / maximum), D = 1, poll scales far from 1 (division), 2-D poll scale"""
+    D = rng.choice([1, 2, 2, 3, 3, 4, 5, 6])
+    sm, m = AIMED_RATIOS[idx % len(AIMED_RATIOS)]
+    r = rng.random()
+    if r < 0.25:
+        ps = [1.0] * D
+    elif r < 0.5:
+        ps = [2.0 ** rng.randint(-8, 8) for _ in range(D)]
+    else:
+        ps = [rng.choice([rng.uniform(0.01, 20.0), 1e-6, 1e6, 0.3, 3.0]) for _ in range(D)]
+    return dict(D=D, n=n_of(sm, m), ps=ps, sm=sm, m=m, ps_2d=rng.random() < 0.3)
